@@ -294,6 +294,10 @@ def unit_scorer(ctx, mname):
         srt, cl = snaps[si]
         si += 1
         out = p.value
+        created = sum(1 for ev in p.events if ev[0] == "pool-create")
+        closed = sum(1 for ev in p.events if ev[0] == "pool-exit")
+        ctx.oblige(f"{nm}/lifetime(a worker pool created by the call is closed before it returns: no pool object outlives the call or crosses a fork)#p{pi}", [],
+                   z3.BoolVal(created == closed and created <= 1), func=fn, replay="c03.scorer", info=dict(info, structural=True, created=created, closed=closed))
         ok_shape = isinstance(out, SymSeq) and len(srt) == 1
         ov = [c for c in cl if c[0] == "overlap"]
         ok_args = len(ov) == 1 and ov[0][1].get("prediction_arr") == "PRED-ARRAY" and ov[0][1].get("reference_arr") == "REF-ARRAY" and ov[0][1].get("ref_labels") == "REF-LABELS"
